@@ -37,7 +37,19 @@ try:
         if s.count(old) != a.count:
             print(f"drill: {f}: pattern occurs {s.count(old)} times, expected {a.count}")
             sys.exit(3)
-        open(p, "w").write(s.replace(old, new))
+        cand = s.replace(old, new)
+        if f.endswith(".py") and "\\n" in new:
+            # legacy spelling in the replacement only: keep whichever reading still compiles
+            try:
+                compile(cand, p, "exec")
+            except SyntaxError:
+                cand2 = s.replace(old, new.encode().decode("unicode_escape"))
+                try:
+                    compile(cand2, p, "exec")
+                    cand = cand2
+                except SyntaxError:
+                    pass
+        open(p, "w").write(cand)
     for pt in a.patch:
         r = subprocess.run(["patch", "-p1", "-s", "-d", base, "-i", os.path.abspath(pt)])
         if r.returncode:
